@@ -139,6 +139,12 @@ def run_selftest(pid, verbose=True, only=None):
                 print("selftest %s %s: STALE (does not apply to the current tree)" % (pid, m["id"]))
             continue
         fired = r[pid]
+        if any(k.startswith("BUILD-FAILED") for k in fired):
+            # the variant applies textually but no longer compiles on this tree: it says nothing about the checker
+            res["stale"].append(m["id"])
+            if verbose:
+                print("selftest %s %s: STALE (variant does not build on the current tree: %s)" % (pid, m["id"], fired[0][:160]))
+            continue
         if m.get("benign"):
             res["controls_applied"] += 1
             if fired:
